@@ -11,6 +11,7 @@ import (
 	"fmt"
 	"io"
 	"math"
+	"syscall"
 	"testing"
 
 	"github.com/AdguardTeam/golibs/ioutil"
@@ -124,6 +125,12 @@ func runReader(c *ctx) {
 			bufLen = tp.Choose(17)
 		default:
 			bufLen = tp.Choose(64)
+		}
+		if tp.Bool(1, 4000) {
+			// A very large caller buffer (io.ReadAll grows its buffer without
+			// bound).
+			bufLen = 1<<20 + tp.Choose(4096)
+			rc.Stats.Probe("read-buffer-above-1MiB")
 		}
 		p := make([]byte, bufLen)
 		for j := range p {
@@ -483,6 +490,8 @@ func runWriter(c *ctx) {
 	sw := &kernel.SimWriter{Tape: tp, Stats: rc.Stats}
 	if tp.Bool(1, 3) {
 		sw.FailRate = 4
+		// Kinds of write errors, among them the one that package os retries.
+		sw.Errs = []error{kernel.ErrInjected, syscall.EINTR, io.ErrShortWrite, fmt.Errorf("write: %w", syscall.EPIPE)}
 	}
 	if tp.Bool(1, 6) {
 		sw.ShortNil = 4
